@@ -216,7 +216,8 @@ def match_known(prop, failure, known=None):
     for k in known:
         if k.get("status") != "open":
             continue
-        if prop not in k.get("properties", [k.get("property")]):
+        props = k.get("properties", [k.get("property")])
+        if prop not in props and "*" not in props:
             continue
         if re.fullmatch(k["signature"], failure.get("signature", "")):
             return k
